@@ -18,25 +18,7 @@ if HERE not in sys.path:
 from sa.cli import run_property
 
 ROOT = "/repo"
-FILE_PROPS = {
-    "joblib/parallel.py": ["C01", "C04", "C09", "C16", "C17", "C15"],
-    "joblib/_parallel_backends.py": ["C01", "C04", "C15", "C17", "C10"],
-    "joblib/_utils.py": ["C04", "C09"],
-    "joblib/memory.py": ["C02", "C05", "C06", "C11", "C12", "C18"],
-    "joblib/_store_backends.py": ["C02", "C05", "C11", "C18"],
-    "joblib/disk.py": ["C11", "C18"],
-    "joblib/func_inspect.py": ["C07", "C12"],
-    "joblib/hashing.py": ["C08"],
-    "joblib/compressor.py": ["C03", "C13", "C14"],
-    "joblib/numpy_pickle.py": ["C03", "C14", "C19"],
-    "joblib/numpy_pickle_utils.py": ["C03", "C14", "C19"],
-    "joblib/_memmapping_reducer.py": ["C19", "C20"],
-    "joblib/executor.py": ["C10", "C15"],
-    "joblib/externals/loky/process_executor.py": ["C10"],
-    "joblib/externals/loky/reusable_executor.py": ["C10", "C15"],
-    "joblib/externals/loky/backend/resource_tracker.py": ["C20"],
-    "joblib/externals/loky/backend/context.py": ["C15"],
-}
+from .rules.total import _FILE_PROPS as FILE_PROPS
 
 
 def functions(tree):
@@ -61,6 +43,8 @@ def local_names(fn):
     nested = [n for n in ast.walk(fn) if isinstance(n, (ast.FunctionDef, ast.AsyncFunctionDef, ast.Lambda, ast.ClassDef)) and n is not fn]
     nested_ids = set()
     for nf in nested:
+        if hasattr(nf, "name"):
+            banned.add(nf.name)     # bound by the def/class statement itself, which the renamer does not rewrite
         for n in ast.walk(nf):
             if isinstance(n, ast.Name) and isinstance(n.ctx, ast.Store):
                 banned.add(n.id)
